@@ -221,3 +221,137 @@ func churn(tr *hx.Trace, dur time.Duration, keepFirst int) {
 	}
 	tr.Emit(map[string]any{"ev": "Churn", "batches": n, "written": written, "odd": odd})
 }
+
+// churnDgramBatch: one packet handle stays open with a reader looping on it; round after round a second handle is acquired,
+// starts a read, a numbered datagram is sent, and the second handle is closed a few microseconds later.  Whatever the race
+// between that Close and the delivery under way, every datagram must come out exactly once, on one of the two handles.
+func churnDgramBatch(addr string, rounds int, sweep int) (evs []cev, odd bool) {
+	mgr := service.NewListenerManager()
+	gs := []*churnG{{}, {}, {}}
+	var oddFlag atomic.Bool
+	got := make([]atomic.Int32, rounds+1)
+	pc1, err := mgr.ListenPacket(addr)
+	gs[0].rec(map[string]any{"ev": "ListenEnd", "t": 0, "h": 1, "k": 1, "ok": err == nil, "err": fmt.Sprint(err), "foreign": false})
+	if err != nil {
+		return gs[0].evs, true
+	}
+	read := func(g *churnG, t, h int, pc net.PacketConn) string {
+		g.rec(map[string]any{"ev": "AcceptStart", "t": t, "h": h})
+		buf := make([]byte, 256)
+		n, _, err := pc.ReadFrom(buf)
+		switch {
+		case err == nil:
+			id := parseItem(string(buf[:n]))
+			g.rec(map[string]any{"ev": "AcceptEnd", "t": t, "h": h, "res": "item", "item": id})
+			if id >= 1 && id <= rounds {
+				got[id].Add(1) // after the event is stamped: the main loop stamps CleanupStart once it has seen every item
+			}
+			return "item"
+		case errors.Is(err, net.ErrClosed):
+			g.rec(map[string]any{"ev": "AcceptEnd", "t": t, "h": h, "res": "closed", "item": 0})
+			return "closed"
+		default:
+			g.rec(map[string]any{"ev": "AcceptEnd", "t": t, "h": h, "res": "err", "item": 0, "err": fmt.Sprint(err)})
+			return "err"
+		}
+	}
+	readerDone := make(chan struct{})
+	go func() { // the handle that keeps reading
+		defer close(readerDone)
+		for read(gs[1], 1, 1, pc1) == "item" {
+		}
+	}()
+	g := gs[0]
+	for i := 1; i <= rounds; i++ {
+		h := i + 1
+		g.rec(map[string]any{"ev": "ListenStart", "t": 0, "h": h, "k": 1})
+		pc, err := mgr.ListenPacket(addr)
+		g.rec(map[string]any{"ev": "ListenEnd", "t": 0, "h": h, "k": 1, "ok": err == nil, "err": fmt.Sprint(err), "foreign": false})
+		if err != nil {
+			oddFlag.Store(true)
+			continue
+		}
+		res := make(chan string, 1)
+		go func() { res <- read(gs[2], 2, h, pc) }()
+		runtime.Gosched()
+		g.rec(map[string]any{"ev": "ConnectStart", "item": i, "k": 1})
+		c, err := net.Dial("udp", addr)
+		ok := false
+		if err == nil {
+			_, err = c.Write([]byte(fmt.Sprintf("item %d\n", i)))
+			ok = err == nil
+			c.Close()
+		}
+		g.rec(map[string]any{"ev": "Connect", "item": i, "k": 1, "ok": ok, "kind": "p"})
+		for spin := 0; spin < (i*7+sweep)%64*40; spin++ { // 0 .. ~60 us
+			runtime.KeepAlive(spin)
+		}
+		g.rec(map[string]any{"ev": "CloseStart", "t": 0, "h": h})
+		pc.Close()
+		g.rec(map[string]any{"ev": "CloseEnd", "t": 0, "h": h})
+		select {
+		case <-res:
+		case <-time.After(2 * time.Second):
+			g.rec(map[string]any{"ev": "Stuck", "t": 2, "op": "accept-after-close"})
+			oddFlag.Store(true)
+		}
+	}
+	// let the deliveries under way complete; the first reader is still waiting
+	deadline := time.Now().Add(300 * time.Millisecond)
+	for time.Now().Before(deadline) {
+		all := true
+		for i := 1; i <= rounds; i++ {
+			if got[i].Load() == 0 {
+				all = false
+			}
+		}
+		if all {
+			break
+		}
+		time.Sleep(time.Millisecond)
+	}
+	for i := 1; i <= rounds; i++ {
+		if got[i].Load() != 1 {
+			oddFlag.Store(true)
+		}
+	}
+	g.rec(map[string]any{"ev": "CleanupStart"})
+	g.rec(map[string]any{"ev": "CloseStart", "t": 0, "h": 1})
+	pc1.Close()
+	g.rec(map[string]any{"ev": "CloseEnd", "t": 0, "h": 1})
+	select {
+	case <-readerDone:
+	case <-time.After(2 * time.Second):
+		g.rec(map[string]any{"ev": "Stuck", "t": 1, "op": "accept-after-close"})
+		oddFlag.Store(true)
+	}
+	for _, x := range gs {
+		x.mu.Lock()
+		evs = append(evs, x.evs...)
+		x.mu.Unlock()
+	}
+	sort.Slice(evs, func(i, j int) bool { return evs[i].seq < evs[j].seq })
+	return evs, oddFlag.Load()
+}
+
+func churnDgram(tr *hx.Trace, dur time.Duration, keepFirst int) {
+	addr := fmt.Sprintf("127.0.0.1:%d", freePort())
+	deadline := time.Now().Add(dur)
+	n, written, odd := 0, 0, 0
+	for time.Now().Before(deadline) {
+		evs, isOdd := churnDgramBatch(addr, 40, n)
+		n++
+		if isOdd {
+			odd++
+		}
+		if isOdd && odd <= 20 || n <= keepFirst {
+			written++
+			tr.Emit(map[string]any{"ev": "Sched", "id": 200000 + n, "dead": false, "script": []any{}, "churn": "dgram"})
+			for _, e := range evs {
+				tr.Emit(e.m)
+			}
+			tr.Emit(map[string]any{"ev": "End", "clean": !isOdd})
+		}
+	}
+	tr.Emit(map[string]any{"ev": "Churn", "batches": n, "written": written, "odd": odd, "what": "dgram"})
+}
